@@ -4,6 +4,11 @@ spec/Imports.tla        import machine (module table, ordered module bodies, imp
                         initialised modules, package attributes set when a submodule import completes,
                         Call(f)); invariants AllAdvertised, GlobalsResolve, ChainsResolve, ImportsSucceed;
                         declarative Closure / StaticNames tied to the machine
+                        ReflectiveResolve: names referred to by computed strings (getattr(M, e), M.__dict__[e],
+                        vars(M)[e], globals()[e]) - FRefl, judged in the state the call reaches; the predictions
+                        (which of the candidate names exist in which namespace) are replayed on the real module
+                        objects; a self-test tree (lenaverif/fixtures/c20_refl) keeps the dimension from being
+                        vacuous on a tree without reflective references
 spec/Trace_Imports.tla  validation of import event logs recorded in real fresh interpreters
 lenaverif/extract_imports.py   the constants of the model, extracted from the tree under test
 lenaverif/importslib.py        fresh interpreters (event recorder, star imports, smoke table)
@@ -21,9 +26,11 @@ from .. import core
 from .. import extract_imports as ei
 from .. import importslib as il
 from .. import localflow
+from .. import reflnames
 
 ACTIONS = tuple(a for a in ("LoadModule", "BindImport", "BindFrom", "DefName", "UseName", "EndModule", "EndUser",
                                     "Call", "EndCall"))
+
 
 
 class Findings(object):
@@ -79,6 +86,18 @@ def compare_ready(ctx, rec, probe, modules):
     return None
 
 
+def pat_matches(pat, name):
+    """Can the pattern of a computed name (reflnames.pattern: literals, {} open hole, {a|b} bounded hole,
+    alternatives separated by ' | ') produce the string?"""
+    import re
+    for alt in pat.split(" | "):
+        rx = "".join(".*" if part == "{}" else "(?:%s)" % "|".join(re.escape(x) for x in part[1:-1].split("|"))
+                     if part.startswith("{") else re.escape(part) for part in re.split(r"(\{[^{}]*\})", alt))
+        if re.fullmatch(rx, name):
+            return True
+    return False
+
+
 def classify_dynamic(ctx, data, find, pkg, name, mode, out):
     """A NameError / AttributeError on a module of the tree observed while running the real code."""
     if out.get("out") != "exc":
@@ -91,6 +110,17 @@ def classify_dynamic(ctx, data, find, pkg, name, mode, out):
                  observed=["%s.%s [%s]: %s -> NameError: %s at %s:%s in %s" % (
                      pkg, name, mode, out["code"], out["msg"], where[0], where[1], where[2])])
         return True
+    if out["cls"] == "AttributeError" and out.get("on") and where:
+        # raised by a lookup by computed name of that function: the failure the model reports under ReflectiveResolve
+        fid = il.func_at(data, where[0], where[1])
+        for f in data["funcs"]:
+            if f["id"] == fid:
+                for d in f["refl"]:
+                    if d["how"] == "getattr" and pat_matches(d["pat"], out["name"]):
+                        find.add(refl_key(f["mod"], {"on": out["on"], "pat": d["pat"]}),
+                                 observed=["%s.%s [%s]: %s -> AttributeError: %s at %s:%s in %s" % (
+                                     pkg, name, mode, out["code"], out["msg"], where[0], where[1], where[2])])
+                        return True
     if out["cls"] == "AttributeError" and out.get("on"):
         if not where and out["on"] == pkg and out["name"] == name:
             # the snippet itself could not fetch the advertised name
@@ -112,6 +142,157 @@ def import_error(data, find, ie):
              observed=["import %s -> %s: %s" % (ie["entry"], ie["cls"], ie["msg"])])
 
 
+FIXTURE = os.path.join(os.path.dirname(os.path.abspath(il.__file__)), "fixtures", "c20_refl")
+
+
+def refl_key(m, v):
+    on = v["on"] if v["on"] != "-" else "?"
+    return "ReflectiveResolve:%s:%s.%s" % (m, on, v["pat"])
+
+
+def replay_refl(ctx, data, recs, scratch, repo=None, tag="refl"):
+    """S2C for ReflectiveResolve: every lookup the model predicts for a function with references by computed
+    name (record t = "refl": which candidate names are present / missing in which namespace, in the state
+    reached by importing the entries and running the function's own imports) is executed on the real module
+    objects of a fresh interpreter.  Returns {(f, line, name): observed outcome text}."""
+    byf = dict((f["id"], f) for f in data["funcs"])
+    groups = {}
+    for r in recs:
+        if r["t"] != "refl":
+            continue
+        pre = tuple(il.import_text(st) for st in byf[r["f"]]["imports"])
+        for v in r["refs"]:
+            if v["on"] == "-":
+                continue
+            for name, want in [(n, "ok") for n in v["present"]] + [(n, "missing") for n in v["missing"]]:
+                groups.setdefault((tuple(r["entries"]), pre), {}).setdefault((v["on"], v["how"], name), []).append(
+                    (r["f"], v["line"], want))
+    jobs = []
+    for k, ((es, pre), lks) in enumerate(sorted(groups.items())):
+        jobs.append(((es, pre), dict(entries=list(es), scratch=os.path.join(scratch, "%s%d" % (tag, k)), repo=repo,
+                                     pre=list(pre), lookups=[{"on": o, "how": h, "name": n} for o, h, n in sorted(lks)])))
+    observed = {}
+    if not jobs:
+        return observed
+    res = il.run_many(ctx, jobs)
+    for (es, pre), lks in groups.items():
+        p = res[(es, pre)]
+        if "import_error" in p or "pre_error" in p:
+            continue        # reported through ImportsSucceed
+        for out in p["lookups"]:
+            for f, line, want in lks[(out["on"], out["how"], out["name"])]:
+                ctx.case(["lookup", list(es), f, out["how"], out["on"], out["name"]])
+                exc = "AttributeError" if out["how"] == "getattr" else "KeyError"
+                got = "ok" if out["out"] == "ok" else ("missing" if out.get("cls") == exc else out.get("cls"))
+                if got != want:
+                    raise core.MachineryError(
+                        "model and interpreter disagree on %s(%s, %r) after importing %s (+ %s): model %s, "
+                        "interpreter %s %s" % (out["how"], out["on"], out["name"], list(es), list(pre), want,
+                                               out["out"], out.get("msg", "")))
+                if want == "missing":
+                    code = ("getattr(%s, %r)" if out["how"] == "getattr" else "vars(%s)[%r]") % (out["on"], out["name"])
+                    observed[(f, line, out["name"])] = "%s -> %s: %s" % (code, out["cls"], out["msg"])
+    return observed
+
+
+def refl_selftest(ctx, scratch):
+    """The reflective-reference dimension on a tree with known answers (fixtures/c20_refl).
+    Call time: extractor + TLC must flag exactly the functions named bad_*, TLC must find ReflectiveResolve
+    violated with them and every invariant true without them, and a real interpreter that calls every function
+    with every value of the universe of the extractor must fail (NameError / AttributeError on a module of the
+    tree / KeyError of a namespace) in exactly the flagged ones.  Import time: lena.c (lookups that succeed or
+    are handled) imports, lena.d (getattr(lena, "b")) fails unless lena.b was imported before - in the model
+    and in the interpreter; the namespaces the model predicts are those of the interpreter."""
+    try:
+        data = ei.extract(FIXTURE)
+    except (ei.ExtractError, SyntaxError) as exc:
+        raise core.MachineryError("self-test tree: extraction failed: %r" % (exc,))
+    modules = set(data["modules"])
+    lists = [["lena.a"], ["lena.b", "lena.a"], ["lena.c"], ["lena.d"], ["lena.b", "lena.d"]]
+    fails = [["lena.d"]]
+    sets = {"D_EntriesQuick": lists, "D_EntriesThorough": lists}
+    full = os.path.join(ctx.workdir, "ReflSelf_data.tla")
+    with open(full, "w") as f:
+        f.write(ei.to_tla(data, "ReflSelf_data", sets))
+    good = dict(data, funcs=[f for f in data["funcs"] if not f["id"].split(":")[1].startswith("bad_")])
+    goodlists = [es for es in lists if es not in fails]
+    goodmod = os.path.join(ctx.workdir, "ReflSelfOk_data.tla")
+    with open(goodmod, "w") as f:
+        f.write(ei.to_tla(good, "ReflSelfOk_data", {"D_EntriesQuick": goodlists, "D_EntriesThorough": goodlists}))
+    names = sorted(f["id"].split(":")[1] for f in data["funcs"] if f["mod"] == "lena.a.refl"
+                   and f["id"].split(":")[1].startswith(("bad_", "ok_")))
+    if sum(1 for n in names if n.startswith("bad_")) < 15 or sum(1 for n in names if n.startswith("ok_")) < 12:
+        raise core.MachineryError("self-test tree: functions are missing (%s)" % names)
+    pool = concurrent.futures.ThreadPoolExecutor(max_workers=4)
+    try:
+        f_bad = pool.submit(ctx.mc, full, "Imports_reflself.cfg", workers=2, expect_violation="report")
+        f_good = pool.submit(ctx.mc, goodmod, "Imports_quick.cfg", workers=2, coverage=True,
+                             must_cover=("ReflUse", "ReflFails"))
+        f_exp = pool.submit(ctx.export, full, "Imports_quick_export.cfg", min_records=len(lists))
+        f_drv = pool.submit(il.run_many, ctx, [
+            (tuple(es), dict(entries=es, scratch=os.path.join(scratch, "selfdrive%d" % k), repo=FIXTURE,
+                             drive=None if es in fails else {"module": "lena.a.refl", "funcs": names,
+                                                             "values": list(reflnames.UNIVERSE_VALUES)}))
+            for k, es in enumerate(lists)])
+        bad, recs, drv = f_bad.result(), f_exp.result(), f_drv.result()
+        f_good.result()         # raises when an invariant fails without the bad_* functions
+    finally:
+        pool.shutdown(wait=True)
+    if bad.exit == 0 or bad.violated != "ReflectiveResolve":
+        raise core.MachineryError("self-test tree: TLC did not find ReflectiveResolve violated (exit %s, %s)" % (
+            bad.exit, bad.violated))
+    replay_refl(ctx, data, recs, scratch, repo=FIXTURE, tag="selflk")
+    for es in lists:
+        p = drv[tuple(es)]
+        ctx.case(["selftest-import", es])
+        ready = [r for r in recs if r["t"] == "ready" and r["entries"] == es]
+        failed = [r for r in recs if r["t"] == "failed" and r["entries"] == es]
+        if es in fails:
+            ie = p.get("import_error")
+            if not ie or ie["cls"] != "AttributeError" or (ie["on"], ie["name"]) != ("lena", "b"):
+                raise core.MachineryError("self-test tree: importing %s should fail on getattr(lena, 'b'): %s" % (es, p))
+            if not failed or any((r["fail"]["kind"], r["fail"]["on"], r["fail"]["name"]) != ("AttributeError", "lena", "b")
+                                 for r in failed):
+                raise core.MachineryError("self-test tree: the model does not predict the failure of %s: %s" % (es, failed))
+            continue
+        if "import_error" in p or failed or not ready:
+            raise core.MachineryError("self-test tree: importing %s fails (interpreter %s, model %s)" % (
+                es, p.get("import_error"), failed))
+        diffs = [compare_ready(ctx, r, p, modules) for r in ready]
+        if all(diffs):
+            raise core.MachineryError("self-test tree: model and interpreter disagree after importing %s: %s" % (es, diffs[0]))
+        flagged, via_refl = set(), set()
+        for r in recs:
+            if r["t"] == "bad" and r["entries"] == es and r["m"] == "lena.a.refl":
+                flagged.add(r["f"].split(":")[1])
+                if r["refl"]:
+                    via_refl.add(r["f"].split(":")[1])
+        want = set(n for n in names if n.startswith("bad_"))
+        if "lena.b" in es:
+            want.discard("bad_subpackage_b")        # lena.b has been imported: it is an attribute of lena
+        if flagged != want:
+            raise core.MachineryError("self-test tree, entries %s: the model flags %s, expected %s" % (
+                es, sorted(flagged), sorted(want)))
+        if via_refl != want - {"bad_literal"}:
+            raise core.MachineryError("self-test tree: flagged through ReflectiveResolve: %s" % sorted(via_refl))
+        failing = set()
+        for o in p["drive"]:
+            ctx.case(["selftest-call", es, o["f"], o["arg"]])
+            if o["out"] == "exc" and (o.get("nameerror") or (o["cls"] == "AttributeError" and o["on"])
+                                      or (o["cls"] == "KeyError" and o["where"])):
+                failing.add(o["f"])
+        if failing != want:
+            raise core.MachineryError("self-test tree, entries %s: the interpreter fails in %s, the model flags %s" % (
+                es, sorted(failing), sorted(want)))
+    ctx.extra["reflective_selftest"] = {
+        "tree": "lenaverif/fixtures/c20_refl", "functions": len(names), "entry_lists": lists,
+        "calls": len(names) * len(reflnames.UNIVERSE_VALUES) * len(goodlists),
+        "flagged_by_model_and_failing_in_interpreter": sorted(n for n in names if n.startswith("bad_")),
+        "silent_in_both": sorted(n for n in names if n.startswith("ok_")),
+        "import_time": "lena.c imports; lena.d fails with AttributeError(lena, 'b') unless lena.b was imported",
+        "argument_universe": list(reflnames.UNIVERSE_VALUES)}
+
+
 def run(ctx):
     rnd = random.Random(ctx.seed)
     tag = "thorough" if ctx.thorough else "quick"
@@ -128,6 +309,11 @@ def run(ctx):
     ctx.assume("name resolution is a static over-approximation: a reference on any syntactic path that survives "
                "pruning of version-dead code counts, whether or not a run reaches it; attributes of objects that "
                "are not modules of the tree are outside the model")
+    ctx.assume("names referred to by computed strings (getattr(M, e), M.__dict__[e], vars(M)[e], globals()[e]): a part "
+               "of e that comes from an argument or from data takes the values %s in the model; a membership test of "
+               "that part against a literal collection, hasattr(M, e) or `e in vars(M)` anywhere in the function is "
+               "taken to guard the lookup; modules into whose namespace functions store computed names are not judged"
+               % (list(reflnames.UNIVERSE_VALUES),))
     find = Findings()
 
     # ------------------------------------------------------------------ the model, generated from the tree
@@ -142,6 +328,8 @@ def run(ctx):
                                "local_flow_functions": sum(1 for f in data["funcs"] if f["fnodes"]),
                                "local_flow_nodes": sum(len(f["fnodes"]) for f in data["funcs"]),
                                "local_flow_seeds": sum(len(f["fseeds"]) for f in data["funcs"]),
+                               "reflective_references": sum(len(f["refl"]) for f in data["funcs"]),
+                               "modules_with_reflective_stores": data.get("dynstore", []),
                                "entry_lists": len(lists)}
 
     # ------------------------------------------------------------------ design level: TLC on the extracted model
@@ -166,12 +354,14 @@ def run(ctx):
     for k in range(nrand):
         es = rnd.sample(data["modules"], rnd.randint(2, 4))
         jobs.append((("rand", k), dict(entries=es, scratch=os.path.join(scratch, "rand%d" % k))))
-    pool = concurrent.futures.ThreadPoolExecutor(max_workers=3)
+    pool = concurrent.futures.ThreadPoolExecutor(max_workers=4)
     f_probes = pool.submit(il.run_many, ctx, jobs)
     f_export = pool.submit(ctx.export, datamod, "Imports_%s_export.cfg" % tag, min_records=len(lists))
+    f_self = pool.submit(refl_selftest, ctx, scratch)
     try:
         res = ctx.mc(datamod, "Imports_%s.cfg" % tag, coverage=True, expect_violation="report")
         recs_future_result = f_export.result()
+        f_self.result()
     finally:
         pool.shutdown(wait=True)
     if res.exit == 0:
@@ -208,6 +398,16 @@ def run(ctx):
                               "statement that raised" % (ld["name"], ld["name"]),
                          functions=["%s line %d" % (r["f"], ld["line"])])
                 tlc_dead.add((r["f"], ld["name"], ld["line"]))
+            for v in r.get("refl", []):
+                find.add(refl_key(r["m"], v),
+                         what="a name of %s is looked up by a computed string (%s, pattern %r%s) and the %s that "
+                              "raises when the name does not exist is not handled: among the strings the expression "
+                              "can evaluate to, %s are not names of %s" % (
+                                  v["on"], "getattr" if v["how"] == "getattr" else "namespace dictionary", v["pat"],
+                                  ", a part of it comes from an argument / from data" if v["open"] else "",
+                                  "AttributeError" if v["how"] == "getattr" else "KeyError", sorted(v["missing"]),
+                                  v["on"]),
+                         functions=["%s line %d" % (r["f"], v["line"])], entries=[r["entries"]])
             for c in r["chains"]:
                 find.add("ChainsResolve:%s:%s.%s" % (r["m"], c["on"], c["attr"]),
                          what="%s is evaluated in %s although nothing it imports loads %s.%s" % (
@@ -219,6 +419,14 @@ def run(ctx):
             fl = r["fail"]
             find.add("ImportsSucceed:%s:%s:%s" % (fl["m"], fl["kind"], (fl["on"] + "." if fl["on"] else "") + fl["name"]),
                      what="import fails", line=fl["line"], entries=[r["entries"]])
+    # the lookups by computed name the model predicts, executed on the real module objects
+    seen_refl = replay_refl(ctx, data, recs, scratch)
+    for r in recs:
+        if r["t"] == "bad":
+            for v in r.get("refl", []):
+                obs = [seen_refl[(r["f"], v["line"], n)] for n in sorted(v["missing"]) if (r["f"], v["line"], n) in seen_refl]
+                if obs:
+                    find.add(refl_key(r["m"], v), observed=obs[:3])
     # the path search over the binding events is TLC's; the reference implementation must agree
     ref_dead = set()
     for f in data["funcs"]:
@@ -338,10 +546,13 @@ def run(ctx):
     return ctx.finish(
         rule="the model is generated from the tree (all %d modules, %d function scopes); TLC explores every import "
              "sequence of the entry lists (%d: each subpackage alone, lena, all%s) followed by calls of any function "
-             "in any order; S2C: predicted sys.modules order and every module namespace compared with a fresh "
-             "interpreter per entry list, star imports executed, %d smoke snippets run with only their subpackage "
+             "in any order, every lookup by a computed name with the strings its expression can evaluate to; S2C: "
+             "predicted sys.modules order and every module namespace compared with a fresh "
+             "interpreter per entry list, predicted lookups by computed name executed on the real module objects "
+             "(self-test tree: %d calls), star imports executed, %d smoke snippets run with only their subpackage "
              "imported (one interpreter per public name) and with everything imported; C2S: import event logs of "
              "%d random import sequences + all entry lists validated by Trace_Imports" % (
                  len(data["modules"]), len(data["funcs"]), len(lists),
-                 ", ordered pairs, every module" if ctx.thorough else "", n_smoke, nrand),
+                 ", ordered pairs, every module" if ctx.thorough else "",
+                 ctx.extra.get("reflective_selftest", {}).get("calls", 0), n_smoke, nrand),
         exhaustive=True)
